@@ -50,6 +50,8 @@ QuickPick(b) == {b, [b EXCEPT !.scheme = "https"], [b EXCEPT !.host = <<"static"
                  [b EXCEPT !.hdrs = <<H("X-K", "match_regex", "k-@m")>>], [b EXCEPT !.hdrs = <<H("X-K", "match_regex", "K-@m")>>],
                  [b EXCEPT !.hdrs = <<H("X-J", "is_defined", ""), H("X-K", "is_defined", "")>>], [b EXCEPT !.hdrs = <<H("X-K", "is_defined", "")>>],
                  [b EXCEPT !.dates = <<W1>>], [b EXCEPT !.times = <<TW>>, !.wds = <<"Mon">>],
+                 \* two date groups that share their last condition (the weekday) and differ by an earlier one
+                 [b EXCEPT !.dates = <<W1>>, !.wds = <<"Sun">>], [b EXCEPT !.dates = <<W2>>, !.wds = <<"Sun">>],
                  [b EXCEPT !.path = <<"static", "/A">>], [b EXCEPT !.path = <<"dyn", "/x/@m">>], [b EXCEPT !.path = <<"dyn", "/x/@m/y">>],
                  [b EXCEPT !.path = <<"dyn", "/X/@m">>], [b EXCEPT !.path = <<"dyn", "/X/@m/y">>], [b EXCEPT !.path = <<"dyn", "/X/y/@m">>]}
 PoolQuick == QuickPick(Base("r1")) \cup QuickPick(Base("r2")) \cup Combos(Base("r3"))
@@ -88,7 +90,7 @@ CfgsTwo == {Cfg(FALSE, FALSE, FALSE, TRUE), Cfg(TRUE, TRUE, TRUE, FALSE)}
 CfgsOne == {Cfg(FALSE, FALSE, FALSE, TRUE)}
 
 HL(n, v) == [name |-> n, value |-> v]
-Universe == [ scheme |-> <<"http", "https", "">>,
+Universe == [ scheme |-> <<"http", "https", "", "HTTPS">>,     \* schemes are compared as given: "HTTPS" is not "https"
               host |-> <<"example.com", "ab.example.com", "EXAMPLE.com", "other.org", "AB.example.com", "a1.example.com", "">>,
               ip |-> <<"10.1.0.0", "10.2.3.4", "10.1.255.255", "9.255.255.255", "11.0.0.0", "::1", "">>,
               method |-> <<"GET", "POST", "PUT", "">>,
